@@ -58,8 +58,20 @@ def run_timeline(rec, case):
     def V(key, msg):
         rec.viol(key, msg + ' | ' + desc + ' history=%s' % R.witness(12),
                  case)
+    if srv == 'T':
+        sim.sched.max_steps = 250000     # a legitimate timeline: < 60 000
+    else:
+        sim.loop.max_iterations = 250000  # legitimate: < 30 000
     try:
         _timeline(rec, rng, sim, R, V, srv, pi, pt, n, monitor, rto, desc)
+    except (RuntimeError, Exception) as e:
+        if 'budget exhausted' not in str(e):
+            raise
+        # a legitimate timeline needs a few thousand scheduling steps; the
+        # system generating unbounded activity in bounded virtual time means
+        # far more than one PING per interval is being produced
+        V('runaway-heartbeat-activity', 'scheduling budget exhausted at '
+          'virtual t=%.3f: %s' % (sim.now, e))
     finally:
         sim.teardown()
 
@@ -252,7 +264,11 @@ def run_shard(spec):
     rec = Rec()
     cases = [{'seed': spec['seed'], 'i': spec['shard'] * 1000000 + k}
              for k in range(spec['n'])]
-    scen.run_cases(rec, cases, run_timeline)
+    for case in cases:
+        scen.run_cases(rec, [case], run_timeline)
+        if rec._vkeys.get('runaway-heartbeat-activity', 0) >= 2 or \
+                len(rec.inconclusive) >= 3:
+            break       # each such case costs tens of seconds; two suffice
     return rec.result()
 
 
